@@ -131,10 +131,12 @@ def other_formats_disagree(soc, j, header, csv, csr_base, fieldmac):
     import xml.etree.ElementTree as ET
     bad = []
     mems = j["memories"]
+    parsed = dict(memh=0, memregions=0, linker=0, svd=0)
     # mem.h
     mh = export.get_mem_header(soc.mem_regions)
     for nm, info in mems.items():
         b = re.search(r"#define %s_BASE 0x([0-9a-f]+)L\n#define %s_SIZE 0x([0-9a-f]+)\n" % (nm.upper(), nm.upper()), mh)
+        parsed["memh"] += 1 if b else 0
         if not b or int(b.group(1), 16) != info["base"] or int(b.group(2), 16) != info["size"]:
             bad.append(("mem.h", nm))
     mr = re.search(r'#define MEM_REGIONS "(.*)"', mh)
@@ -144,6 +146,7 @@ def other_formats_disagree(soc, j, header, csv, csr_base, fieldmac):
             f = ent.split()
             if len(f) == 3:
                 listed[f[0].lower()] = (int(f[1], 16), int(f[2], 16))
+                parsed["memregions"] += 1
     for nm, info in mems.items():
         if listed.get(nm) != (info["base"], info["size"]):
             bad.append(("mem.h MEM_REGIONS", nm))
@@ -151,6 +154,7 @@ def other_formats_disagree(soc, j, header, csv, csr_base, fieldmac):
     lr = export.get_linker_regions(soc.mem_regions)
     for nm, info in mems.items():
         b = re.search(r"\t%s : ORIGIN = 0x([0-9a-f]+), LENGTH = 0x([0-9a-f]+)\n" % re.escape(nm), lr)
+        parsed["linker"] += 1 if b else 0
         if not b or int(b.group(1), 16) != info["base"] or int(b.group(2), 16) != info["size"]:
             bad.append(("linker", nm))
     # CSV memory regions and constants, soc.h constants
@@ -174,6 +178,7 @@ def other_formats_disagree(soc, j, header, csv, csr_base, fieldmac):
         bad.append(("svd", "unparsable: %s" % e))
         root = None
     if root is not None:
+        parsed["svd"] = len(list(root.iter("register")))
         busw = soc.csr.data_width
         per = {p_.findtext("name"): p_ for p_ in root.iter("peripheral")}
         for rname, region in soc.csr_regions.items():
@@ -208,6 +213,11 @@ def other_formats_disagree(soc, j, header, csv, csr_base, fieldmac):
         for nm, info in mems.items():
             if svdm.get(nm) != (info["base"], info["size"]):
                 bad.append(("svd memoryRegion", nm))
+    # a format of which not a single entry could be located is a scanner problem (layout changed), not a finding: inconclusive
+    lost = [k for k, v in parsed.items() if v == 0]
+    if lost:
+        from vf.fhdl2smt import Unsupported
+        raise Unsupported("text scanner found no entry at all in: %s" % ", ".join(lost))
     # field helper functions: mask and shift of *_extract / *_replace equal the macros
     for m in re.finditer(r"static inline uint32_t (\w+)_extract\(uint32_t oldword\) \{\n\tuint32_t mask = 0x([0-9a-f]+);\n\treturn \(\(oldword >> (\d+)\) & mask\);", header):
         key = m.group(1).upper()
